@@ -162,8 +162,11 @@ func vConfFor(cfg vCfg) *Conf {
 // N3/N6 addresses instead of interface look-ups; everything else is the real code.
 func newVInst(cfg vCfg) *vInst { return newVInstWith(cfg, nil) }
 
-// newVInstWith builds an instance against an existing (possibly populated) fake BESS: a new incarnation of the agent.
-func newVInstWith(cfg vCfg, oldFB *fakeBESS) *vInst {
+// newVInstWith builds an instance against an existing (possibly populated) fake datapath (*fakeBESS or *fakeP4): a new
+// incarnation of the agent.
+func newVInstWith(cfg vCfg, old any) *vInst {
+	oldFB, _ := old.(*fakeBESS)
+	oldFP, _ := old.(*fakeP4)
 	if cfg.NConns == 0 {
 		cfg.NConns = 1
 	}
@@ -185,7 +188,7 @@ func newVInstWith(cfg vCfg, oldFB *fakeBESS) *vInst {
 	}
 	in.u = u
 	if cfg.P4 {
-		in.p4 = newVP4Env(in, conf)
+		in.p4 = newVP4EnvWith(in, conf, oldFP)
 	} else {
 		in.fb = oldFB
 		if in.fb == nil {
